@@ -357,7 +357,9 @@ def showErr : LoadErr → String
   | .parse _ _ _ (.panic m) => "panic " ++ hexOfBytes (bytesOfString m)
   | .parse _ _ _ _ => "bad-view"
   | .dupOutput name here there =>
-    "err " ++ hexOfBytes (bytesOfString ("dupout " ++ stringOfBytes name ++ " " ++ showLoc here ++ " " ++ showLoc there))
+    -- the message carries the path and file names as raw bytes (no Latin-1 / UTF-8 round trip)
+    let loc (l : Loc) : Bytes := l.file ++ bytesOfString (":" ++ toString l.line)
+    "err " ++ hexOfBytes (bytesOfString "dupout " ++ name ++ [32] ++ loc here ++ [32] ++ loc there)
   | .other k =>
     if k.startsWith "panic: " then "panic " ++ hexOfBytes (bytesOfString (k.drop 7).toString)
     else "err " ++ hexOfBytes (bytesOfString k)
